@@ -252,6 +252,7 @@ func matchKnown(known []knownFinding, prop string, f *failure) *knownFinding {
 		Strategy   string                  `json:"Strategy"`
 		Races      []struct{ A, B string } `json:"races"`
 		HistFuncs  []string                `json:"history_funcs"`
+		PfMisses   bool                    `json:"prefilter_misses_match"`
 		Funcs      []string                `json:"rare_funcs"`
 		Violations []struct {
 			Kind string `json:"kind"`
@@ -294,6 +295,9 @@ func matchKnown(known []knownFinding, prop string, f *failure) *knownFinding {
 					ok = false
 				}
 			}
+			if _, has := k.Key["prefilter_misses_match"]; has && !out.PfMisses {
+				ok = false
+			}
 			if v, has := k.Key["strategy_in"]; has {
 				found := false
 				if l, isList := v.([]any); isList {
@@ -329,7 +333,7 @@ func matchKnown(known []knownFinding, prop string, f *failure) *knownFinding {
 			}
 			for name := range k.Key {
 				switch name {
-				case "knob_nondefault", "history_func", "strategy_in", "history_func_any":
+				case "knob_nondefault", "history_func", "strategy_in", "history_func_any", "prefilter_misses_match":
 				default:
 					ok = false
 				}
